@@ -1,5 +1,7 @@
 """C40 — Binlog events encode values the way MySQL replicas decode them."""
 import calendar
+import json as _json
+import struct
 from lib import vlib
 from lib.vlib import cq_bytes, cq_bool, cq_Z
 
@@ -31,7 +33,7 @@ RULE = ("per column type: boundary values (min, max, -1, 0, powers of 256 +-1, 9
         "255/256 members, length prefixes at 255/256 and 65535/65536) + random values; non-trivial = every case (each is a distinct typed value); distinct by (type, value)")
 ASSUMPTIONS = ["values are in the column type's domain (the oracle is vacuous outside it)", "strings use a single-byte character set (latin1_bin / binary): declared length = byte length",
                "negative zero DECIMAL values are not generated (whether dolt can store one was not established)"]
-REQUIRED_TAGS = ["int", "year", "date", "datetime", "timestamp", "time", "time-neg", "decimal", "decimal-neg", "varchar", "char", "blob", "text", "enum", "set", "bit",
+REQUIRED_TAGS = ["float", "double", "json", "json-large-format", "int", "year", "date", "datetime", "timestamp", "time", "time-neg", "decimal", "decimal-neg", "varchar", "char", "blob", "text", "enum", "set", "bit",
                  "len-prefix-2", "enum-2byte", "fsp-odd"]
 COQ_SHARD = 700
 
@@ -191,6 +193,28 @@ def gen_cases(rng, tier):
         for v in (0, 1, 2 ** n - 1, 2 ** (n - 1), rng.randrange(2 ** n)):
             cs.append(c_set(n, v))
             cs.append(c_bit(n, v))
+    # float / double (bit patterns; no NaN / infinities: the column types reject them)
+    for bits in (0, 1, 0x3fc00000, 0xbfc00000, 0x7f7fffff, 0x00800000, 0x007fffff, 0x80000001, 0x4b7fffff, 0x3eaaaaab):
+        cs.append({"t": "float", "bits": str(bits), "expect": []})
+    for bits in (0, 1, 0x3ff8000000000000, 0xbff8000000000000, 0x7fefffffffffffff, 0x0010000000000000, 0x000fffffffffffff, 0x8000000000000001, 0x433fffffffffffff, 0x3fd5555555555555):
+        cs.append({"t": "double", "bits": str(bits), "expect": []})
+    for _ in range(10 * k):
+        b = rng.getrandbits(32)
+        if (b >> 23) & 0xff != 0xff and b != 0x80000000:
+            cs.append({"t": "float", "bits": str(b), "expect": []})
+        b = rng.getrandbits(64)
+        if (b >> 52) & 0x7ff != 0x7ff and b != 0x8000000000000000:
+            cs.append({"t": "double", "bits": str(b), "expect": []})
+    # JSON documents
+    docs = [None, True, False, 0, 1, -1.5, 1e308, 5e-324, "", "hi", "a" * 127, "b" * 128, "c" * 16383, "d" * 16384, [], {}, [None], [True, False, None],
+            [1, "x", [2, ["y", {}]], {"k": []}], {"a": 1, "b": [True, None, "x"], "c": {"d": 2.5}}, {"": ""}, {"a": None, "ab": False, "b": True},
+            {"k" * 255: 1}, {"k" * 256: 1}, {"k" * 300: [1]}, {"x": "y" * 200, "z" * 100: {"q": [1, 2, 3]}},
+            ["s" * 400] * 170, ["t" * 300] * 230, {("k%03d" % i): "v" * 330 for i in range(200)}, [[["deep"]]] , ["x", "a" * 70000], {"a": "a" * 70000},
+            ["a" * 70000, "x"], ["p" * 65525], [None] * 300, [1.0] * 40]
+    for _ in range(25 * k):
+        docs.append(_rand_doc(rng, 3))
+    for d in docs:
+        cs.append({"t": "json", "json": _json.dumps(d, sort_keys=True), "expect": []})
     seen, out = set(), []
     for c in cs:
         key = repr(sorted(c.items()))
@@ -198,6 +222,54 @@ def gen_cases(rng, tier):
             seen.add(key)
             out.append(c)
     return out
+
+
+def _rand_doc(rng, depth):
+    r = rng.random()
+    if depth == 0 or r < 0.35:
+        return rng.choice([None, True, False, 0, 1, -2, 3.25, 1e10, 123456789.125, "", "s", "text", _txt(rng, rng.choice([1, 5, 127, 128, 300])).decode()])
+    if r < 0.65:
+        return [_rand_doc(rng, depth - 1) for _ in range(rng.choice([0, 1, 2, 3, 5]))]
+    return {_txt(rng, rng.choice([0, 1, 2, 3, 8])).decode(): _rand_doc(rng, depth - 1) for _ in range(rng.choice([0, 1, 2, 3, 4]))}
+
+
+def _rle(bs):
+    """Coq term for a byte list; long runs as (repeat c n) so that big documents stay small terms."""
+    bs = list(bs)
+    parts, lit, i = [], [], 0
+    while i < len(bs):
+        j = i
+        while j < len(bs) and bs[j] == bs[i]:
+            j += 1
+        if j - i >= 24:
+            if lit:
+                parts.append(cq_bytes(lit)); lit = []
+            parts.append("repeat %d %d" % (bs[i], j - i))
+        else:
+            lit.extend(bs[i:j])
+        i = j
+    if lit or not parts:
+        parts.append(cq_bytes(lit))
+    return "(" + " ++ ".join(parts) + ")"
+
+
+def _jv(d):
+    if d is None:
+        return "JNull"
+    if d is True:
+        return "JTrue"
+    if d is False:
+        return "JFalse"
+    if isinstance(d, (int, float)):
+        return "(JNum %d)" % struct.unpack("<Q", struct.pack("<d", float(d)))[0]
+    if isinstance(d, str):
+        return "(JStr %s)" % _rle(d.encode())
+    if isinstance(d, list):
+        if len(d) >= 24 and all(x == d[0] for x in d):
+            return "(JArr (repeat %s %d))" % (_jv(d[0]), len(d))
+        return "(JArr [%s])" % "; ".join(_jv(x) for x in d)
+    ks = sorted(d.keys(), key=lambda x: x.encode())
+    return "(JObj [%s])" % "; ".join("(%s, %s)" % (_rle(k.encode()), _jv(d[k])) for k in ks)
 
 
 def _value(c):
@@ -226,6 +298,12 @@ def _value(c):
         return "(VEnum %d %s)" % (c["n"], c["i"])
     if t == "set":
         return "(VSet %d %s)" % (c["n"], c["i"])
+    if t == "float":
+        return "(VFloat %s)" % c["bits"]
+    if t == "double":
+        return "(VDouble %s)" % c["bits"]
+    if t == "json":
+        return "(VJson %s)" % _jv(_json.loads(c["json"]))
     return "(VBit %d %s)" % (c["n"], c["i"])
 
 
@@ -237,7 +315,7 @@ def coq_case(case, out):
     if o.get("err"):
         return "(%s, {| o_data := None; o_typ := 0; o_meta := 0; o_agree := false |})" % _value(case)
     return "(%s, {| o_data := Some %s; o_typ := %d; o_meta := %d; o_agree := %s |})" % (
-        _value(case), cq_bytes(o["data"] or []), o["typ"], o["meta"], cq_bool(o["agree"] and not o.get("decerr")))
+        _value(case), _rle(o["data"] or []), o["typ"], o["meta"], cq_bool(o["agree"] and not o.get("decerr")))
 
 
 def classify(case, out):
@@ -258,6 +336,8 @@ def classify(case, out):
         tags.append("enum-2byte")
     if t in ("datetime", "timestamp") and case["fsp"] % 2 == 1:
         tags.append("fsp-odd")
+    if t == "json" and len(o.get("data") or []) > 4 and o["data"][4] in (1, 3):
+        tags.append("json-large-format")
     if not o.get("agree"):
         tags.append("DECODER-DISAGREES")
     return tags
@@ -276,7 +356,38 @@ def match_known(finding, case, out):
         return t == "year" and int(case["i"]) == 0
     if key == "binlog.decimalSerializer:precision-equals-scale":
         return t == "decimal" and case["P"] == case["Sc"]
+    if t == "json":
+        doc = _json.loads(case["json"])
+        if key == "binlog.json:object-key-256-bytes":
+            return _any_node(doc, lambda d: isinstance(d, dict) and any(len(k.encode()) >= 256 for k in d))
+        if key == "binlog.json:small-format-uint32-underflow":
+            # an array/object element (or key) whose encoding is longer than 65535 bytes
+            return _any_node(doc, lambda d: isinstance(d, (list, dict)) and any(_enc_len(x) > 65535 for x in (d if isinstance(d, list) else d.values())))
     return False
+
+
+def _any_node(d, pred):
+    if pred(d):
+        return True
+    if isinstance(d, list):
+        return any(_any_node(x, pred) for x in d)
+    if isinstance(d, dict):
+        return any(_any_node(x, pred) for x in d.values())
+    return False
+
+
+def _enc_len(d):
+    """length of encodeJsonValue's bytes (without type id), enough to recognise elements beyond the small format"""
+    if d is None or isinstance(d, bool):
+        return 1
+    if isinstance(d, (int, float)):
+        return 8
+    if isinstance(d, str):
+        n = len(d.encode())
+        return n + (1 if n < 128 else 2 if n < 16384 else 3)
+    if isinstance(d, list):
+        return 4 + sum(3 + (0 if (x is None or isinstance(x, bool)) else _enc_len(x)) for x in d)
+    return 4 + sum(7 + len(k.encode()) + (0 if (v is None or isinstance(v, bool)) else _enc_len(v)) for k, v in d.items())
 
 
 def neighbours(case, rng):
